@@ -190,7 +190,16 @@ def replay_baseline(inp):
     obs = [float(env.get(f"o{i}", 0.0)) if inp["os"][i] == "val" else np.nan for i in range(n)]
     pred = [float(env.get(f"q{i}", 0.0)) if inp["ps"][i] == "val" else np.nan for i in range(n)]
     p = max(1, int(env.get("p", 1)))
-    bm = real_baseline(obs, pred, p)
+    # the lag-1 autocorrelation of the residuals is a contract stub in the symbolic run (any value in [-1, 1] or undefined);
+    # obligations that depend on it are replayed with the witness's value injected at the same place (Series.autocorr)
+    inject = inp.get("rho_state") if any(k in inp["label"] for k in ("n_prime", "autocorr")) else None
+    rho_w = float(env.get("rho", 0.0)) if inject == "val" else float("nan")
+    if inject:
+        with patched(pd.Series, autocorr=lambda self, lag=1: rho_w):
+            bm = real_baseline(obs, pred, p)
+            _ = (bm.n_prime, bm.rmse_autocorr_adj)  # cached computed fields: evaluate while the injection is active
+    else:
+        bm = real_baseline(obs, pred, p)
     fin = [(o, q) for o, q in zip(obs, pred) if np.isfinite(o) and np.isfinite(q)]
     if not fin:
         return False, "no finite rows"
@@ -201,7 +210,7 @@ def replay_baseline(inp):
     k = len(fin)
     ddof = max(k - p, 1)
     sse = float(np.sum(r ** 2))
-    rho = pd.Series(r).autocorr(lag=1) if k > 1 else np.nan
+    rho = rho_w if inject else (pd.Series(r).autocorr(lag=1) if k > 1 else np.nan)
     npr = k * (1 - rho) / (1 + rho) if np.isfinite(rho) and rho != -1 else 1.0
     if not np.isfinite(npr):
         npr = 1.0
@@ -559,7 +568,7 @@ def _run_baseline_group(case, n, gname, fields):
         os_, ps, vals, err = p.value
         fin = [i for i in range(n) if os_[i] == "val" and ps[i] == "val"]
         case.regime("row dropped for NaN", len(fin) < n)
-        rpf = lambda label: ("baseline", (lambda a, b: lambda mdl: dict(n=n, label=label, os=a, ps=b, env=model_env(mdl, case.inputs)))(os_, ps))
+        rpf = lambda label: ("baseline", (lambda a, b, rs: lambda mdl: dict(n=n, label=label, os=a, ps=b, rho_state=rs, env=model_env(mdl, case.inputs)))(os_, ps, p.notes.get("rho")))
         if not fin:
             # no finite pair: metrics are undefined; nothing to claim beyond not reporting numbers
             continue
